@@ -15,13 +15,13 @@ ASSUMPTIONS = [
     "relational check: after every step the long-lived object is compared with a freshly created object holding the same settings, as symbolic dictionaries, on both sides of every cache-comparison fork (the solver decides old == new and old != new)",
 ]
 BOUNDS = {
-    "quick": "Sampler and QuickSampler on 2-3 mode circuits with symbolic reflectivity / parameter values / brightness; every sequence of 2 reconfigurations out of 11 (reassign circuit, reassign circuit with the same unitary but a different herald photon number, move the herald, edit the circuit in place, set a circuit Parameter v1->v2, change input, brightness old->new, backend, post-selection reassigned, post-selection object edited in place, detector mode) with a distribution read in between or not; sampling without a prior read; distribution read again after each sampling method with the probability threshold raised to 1e-3 (reaches the renormalising branch of sample_N_inputs through the sum-to-one contract of Generator.choice); Analyzer with and without expected",
+    "quick": "Sampler and QuickSampler on 2-3 mode circuits with symbolic reflectivity / parameter values / brightness; every sequence of 2 reconfigurations out of 12 (reassign circuit, reassign circuit with the same unitary but a different herald photon number, move the herald, move only the output herald, edit the circuit in place, set a circuit Parameter v1->v2, change input, brightness old->new, backend, post-selection reassigned, post-selection object edited in place, detector mode) with a distribution read in between or not; sampling without a prior read; distribution read again after each sampling method with the probability threshold raised to 1e-3 (reaches the renormalising branch of sample_N_inputs through the sum-to-one contract of Generator.choice); Analyzer with and without expected",
     "thorough": "sequences of 3 reconfigurations starting with a herald move, herald photon change, parameter set or input change",
 }
 OUTSIDE = "longer histories; purity/indistinguishability changes (covered for fresh objects by C06)"
 STUBS = ["as C07"]
 
-OPS = ["circuit-new", "circuit-same-U-other-herald", "circuit-herald-moved", "circuit-edit", "param-set", "input", "brightness", "backend", "postselect", "postselect-inplace", "detector-mode"]
+OPS = ["circuit-new", "circuit-same-U-other-herald", "circuit-herald-moved", "circuit-out-herald-moved", "circuit-edit", "param-set", "input", "brightness", "backend", "postselect", "postselect-inplace", "detector-mode"]
 
 
 class _Cfg:
@@ -33,6 +33,7 @@ class _Cfg:
         self.kind = kind
         self.param = lw.Parameter(ctx.real("v0", 0, 1))
         self.herald_mode = 2
+        self.herald_out = None  # output mode of the herald when it differs from the input mode
         self.circuit = self._mk_circuit(self.param, herald_photons=0, extra=[])
         self.herald_photons = 0
         self.extra = []
@@ -53,7 +54,10 @@ class _Cfg:
         c.bs(1, reflectivity=self.ctx.m.frac(1, 2), convention="H")
         for phi_m, phi in extra:
             c.ps(phi_m, phi)
-        c.herald(herald_photons, self.herald_mode)
+        if self.herald_out is None:
+            c.herald(herald_photons, self.herald_mode)
+        else:
+            c.herald(herald_photons, self.herald_mode, self.herald_out)
         return c
 
     def fresh(self):
@@ -87,6 +91,13 @@ class _Cfg:
             obj.circuit = self.circuit
         elif op == "circuit-herald-moved":
             self.herald_mode = 0 if self.herald_mode == 2 else 2
+            self.herald_out = None
+            self.circuit = self._mk_circuit(self.param, self.herald_photons, self.extra)
+            obj.circuit = self.circuit
+        elif op == "circuit-out-herald-moved":
+            # same unitary, same mode count, same input herald: only the output herald mode differs
+            cur = self.herald_mode if self.herald_out is None else self.herald_out
+            self.herald_out = 0 if cur == 2 else 2
             self.circuit = self._mk_circuit(self.param, self.herald_photons, self.extra)
             obj.circuit = self.circuit
         elif op == "circuit-edit":
